@@ -11,8 +11,8 @@ P = {
          "on every generated document with >= 1 ready element the output was the input with byte ranges taken out and all non-whitespace text outside the reference extents survived in order"),
  "C03": ("5 C02/C03", "reference-model monitor: output must equal (input minus union of ready extents) up to deletion of spaces, tabs, line breaks; nesting classes counted",
          "on every generated document with >= 1 ready element nothing of a ready element survived, at every nesting class observed (ready in pending / skip / unregistered / ready / unwrapped parents)"),
- "C04": ("5 C04", "reference-model monitor: byte-for-byte identity on documents in which the reference evaluation finds no ready element",
-         "clean(x) == x byte-for-byte on every generated document without a ready element (pending, skip, unregistered, malformed, unclosed, un-unwrappable, junk)"),
+ "C04": ("5 C04", "reference-model monitor: byte-for-byte identity on documents in which the reference evaluation finds no ready element, at the library and through the real binary (subprocess)",
+         "clean(x) == x byte-for-byte on every generated document without a ready element (pending, skip, unregistered, malformed, unclosed, un-unwrappable, junk); the same through the CLI on file/stdin/--output routes incl. BOM, CRLF, missing final line break"),
  "C05": ("5 C05", "reference-model monitor with an independent civil-date implementation; direct evaluator calls, probe documents through clean, Decision hook events, monotone histories",
          "observed decision == (now >= to at the offset) on the second-resolution grid around now / calendar boundaries x offsets -12:00..+14:00 in 15-min steps in both spellings; enumerated malformed values / garbage offsets never ready; removed set grows with time"),
  "C06": ("5 C06", "reference-model monitor: exact set membership + bare-skip rule; evaluator calls, probe documents (all attribute orders), Decision events, the real binary without target option",
@@ -21,13 +21,13 @@ P = {
          "every token list observed was a non-empty, contiguous, boundary-aligned partition whose byte and char spans agree, tags carry their delimiters, no adjacent text tokens; exhaustive over atom strings per delimiter pair up to the recorded bound"),
  "C08": ("5 C08", "differential monitor: tokenize() vs. textbook leftmost-shortest scan; known finding KF-C08 recognised only when the result equals the no-fallback-automaton model exactly",
          "token spans equal the textbook scan on every string where the scan and the no-fallback automaton agree; where they differ the implementation equals the automaton model exactly (KNOWN-FINDING KF-C08); any third behaviour is a violation"),
- "C09": ("5 C09", "round-trip monitor: tags generated from the grammar vs. element_parser::parse; metamorphic opaque-value probes through clean",
+ "C09": ("5 C09", "round-trip monitor: tags generated from the grammar vs. element_parser::parse; metamorphic opaque-value probes through clean (comment values and valued skip / unwrap-block flags)",
          "every generated well-formed tag parsed to exactly its name and attributes (exhaustive for <= 2 attributes over a small pool, random up to 4 attributes over the adversarial pool, 5 spellings); no quoted-value content changed a removal decision"),
  "C10": ("5 C10", "differential monitor: parser::parse tree (pairs, flattening, parent links) vs. explicit stack model",
          "pairs, in-order flattening and parent attribution equal the stack rule for every token sequence up to the recorded length over 7 atoms (exhaustive) and random sequences up to 40 tokens, several delimiter pairs"),
  "C11": ("5 C11", "line-level reference monitor on block documents: surviving trimmed line sequence vs. input lines minus the four removed lines; verbatim test for too-short blocks",
          "for every generated unwrap layout (0..6 lines between the tags, odd wrappers, nested elements, any position) exactly the two tag lines and two wrapper lines disappeared and un-unwrappable blocks stayed verbatim"),
- "C12": ("5 C12", "line-level reference monitor: leading whitespace of every surviving inner line vs. R-dedent (outer-to-inner composition, irregular layouts skipped)",
+ "C12": ("5 C12", "line-level reference monitor: leading whitespace of every surviving inner line vs. R-dedent (outer-to-inner composition, irregular layouts skipped); byte-alignment monitor on CRLF / mixed line ends (nothing but spaces and tabs consumed from inner lines)",
          "every surviving inner line had exactly the reference indentation, unchanged remainder and indentation taken from the old one, for units {2sp,4sp,tab} x tag indent 0..2 x first-line offsets x nesting depth 1..3 x line-1 / later"),
  "C13": ("5 C13", "line-level reference monitor on default-strategy block documents: byte-for-byte surviving lines + blank-line arithmetic a+b-[a>0 and b>0]",
          "surviving non-blank lines byte-identical and in order, blank-line formula exact for every (b,a) in 0..4^2 x blank flavour x indent x neighbours x pending parent x final newline x second block (exhaustive), plus random block documents"),
@@ -37,8 +37,8 @@ P = {
          "Ready items == reference regions of the ready elements (count, order, first/last line, highlighted text), the bytes clean deletes before tidying == the union of those regions, list unchanged by interleaved clean / list_all calls, on all documents of the C15 space generated (block, inline, CRLF, bounded-exhaustive line sequences, configuration steps 0..4)"),
  "C16": ("5 C16", "statement-derived item checker (source lines first..last, tabs expanded, one fixed-width number prefix, marker columns) + strict JSON structure check (serde_json) + pretty-vs-JSON agreement with all SGR codes stripped",
          "JSON form valid with exactly the three keys; every annotated_code_block shows exactly its lines behind a fixed-width number prefix with tabs expanded and both markers in the right columns (ASCII prefixes), line_range == lines shown; code blocks occur in order in the colour-stripped pretty form; documents pushed down to line 100 000"),
- "C17": ("5 C17", "reference-region monitor over list_all JSON: (first line, last line, status) sequence vs. R-regions; Ready subsequence vs. list",
-         "list_all == Ready regions + outstanding Pending regions in source order for all sibling strings over 8 sibling kinds up to the recorded length (exhaustive) and random documents with many pending elements"),
+ "C17": ("5 C17", "reference-region monitor over list_all JSON: (first line, last line, status) sequence vs. R-regions; Ready subsequence vs. list; plus an online law over the hook events of each list_all call (every pending element region listed or wholly inside a listed region, no listed Pending region inside another listed region) that also judges arbitrary text and geometries outside the region model",
+         "list_all == Ready regions + outstanding Pending regions in source order for all sibling strings over 8 sibling kinds up to the recorded length (exhaustive) and random documents with many pending elements; the law held on junk / mutated text and with tails of up to 130 pending elements behind wrapper-line templates"),
  "C18": ("5 C18", "relational (metamorphic) monitor: one AST rendered under two spellings, outputs compared after token-wise canonicalisation; renderings that trigger KF-C08 skipped and counted",
          "clean output and list / list_all line ranges identical after canonicalisation for every pair from a pool of 15 delimiter pairs x 5 tag-name pairs on the generated ASTs"),
  "C19": ("5 C19", "history monitor: chains of cleaning runs at non-decreasing configurations; idempotence byte-for-byte, stepwise vs. direct up to whitespace, nothing stranded",
@@ -82,7 +82,7 @@ m = {
     ],
     "checks": checks,
     "not_applicable": [],
-    "notes": "Exit codes of every check: 0 held / 1 VIOLATION line / 2 inconclusive (never folded into the others). Known findings: /verif/known_findings.json (open: KF-C08 only; 15 defects were repaired by 14 fix: commits, listed there as fixed), printed as KNOWN-FINDING lines only when the exact classifier recognises the execution. Seeded faults used to validate the monitors: /verif/seeded/.",
+    "notes": "Exit codes of every check: 0 held / 1 VIOLATION line / 2 inconclusive (never folded into the others). Known findings: /verif/known_findings.json (open: KF-C08 only; 16 defects were repaired by 15 fix: commits, listed there as fixed), printed as KNOWN-FINDING lines only when the exact classifier recognises the execution. Seeded faults used to validate the monitors: /verif/seeded/.",
 }
 json.dump(m, open(os.path.join(V, "MANIFEST.json"), "w"), indent=1, ensure_ascii=False)
 print("wrote MANIFEST.json with", len(checks), "checks; hook commits", hooks)
